@@ -31,6 +31,9 @@ Base(ig) ==
                 Y |-> Rule(Plus(B1)),
                 K |-> Class(<<Field("k", Ref("X")), Field("rest", Star(Ref("Y")))>>),
                 Z |-> Rule(Seq2(Ref("Y"), Ref("X"))),
+                \* a rule that cannot fail (a derived level may override it with one that can) and a rule using it
+                O |-> Rule(Star(C1)),
+                P |-> Rule(Ch2(Seq2(Ref("O"), Ref("X")), Str(<<33>>))),
                 \* nested deeper than the generator's block budget: the reference to X sits in a helper function
                 Deep |-> Rule(Seq2(Str(<<37>>), Nest(Seq2(Ref("X"), Opt(Str(<<37>>))), 22))),
                 T |-> RuleP(<<"p">>, Seq2(Ref("p"), Opt(Str(<<33>>)))),          \* a parameterised rule
@@ -47,7 +50,7 @@ NOpts == {"absent", "new", "tsuper"}       \* tsuper: T(p) overridden in terms o
 Derived(xo, yo, so, ko, no, addign) ==
     LET r1 == IF xo = "override" THEN [X |-> Rule(C1)]
               ELSE IF xo = "super" THEN [X |-> Rule(Seq2(<<"super", "X">>, Opt(C1)))] ELSE <<>>
-        r2 == IF yo = "override" THEN [Y |-> Rule(Ch2(C1, B1))] ELSE <<>>
+        r2 == IF yo = "override" THEN [Y |-> Rule(Ch2(C1, B1)), O |-> Rule(Plus(C1))] ELSE <<>>
         r3 == IF so = "override" THEN [start |-> Rule(Seq2(Opt(Ref("Y")), Ref("X")))]
               ELSE IF so = "super" THEN [start |-> Rule(Seq2(<<"super", "start">>, Opt(Str(<<33>>))))] ELSE <<>>
         r4 == IF ko = "rule" THEN [K |-> Rule(Seq2(Ref("X"), Ref("X")))] ELSE <<>>
@@ -122,7 +125,7 @@ Texts == TextSeqUpTo(Alpha, IF Tier = "quick" \/ ig # "none" THEN 3 ELSE 4)     
                <<35, 36, 36, a, c3>>, <<37, a>>, <<37, c3>>, <<37, a, c3, 37>>, <<37, a, 37>>, <<37, c3, 37, a>> >>
          \o (IF ig = "none" THEN <<>> ELSE << <<sp, a, sp, b, sp, b>>, <<a, sp, c3, sp, b>>, <<sp, sp, a, sp, a>> >>)
 
-EntriesOf(chain, top) == SelectSeq(<<SName, "X", "Y", "K", "Z", "N", "M", "U", "V">>, LAMBDA r : HasDef(chain, 1, top, r))
+EntriesOf(chain, top) == SelectSeq(<<SName, "X", "Y", "K", "Z", "N", "M", "U", "V", "O", "P">>, LAMBDA r : HasDef(chain, 1, top, r))
 
 RunsFor(chain, top) ==
     LET G == FlatS(chain, top, SName)
